@@ -387,23 +387,31 @@ private:
       //       and the seq-cst fence (3)
       XENIUM_THREAD_FENCE(std::memory_order_acquire);
 
+      // The orphans of the epoch slot we are about to enter have to be taken over *before* the
+      // epoch is advanced: as soon as the new epoch is visible, other threads may add nodes that
+      // were retired in the new epoch to the very same slot, and those must not be reclaimed yet.
+      const auto idx = new_epoch % number_epochs;
+      auto* orphaned_nodes = orphans[idx].adopt();
+
       // (7) - this release-CAS synchronizes-with the acquire-load (5)
       bool success = global_epoch.compare_exchange_strong(
         curr_epoch, new_epoch, std::memory_order_release, std::memory_order_relaxed);
       if (XENIUM_LIKELY(success)) {
-        reclaim_orphans(new_epoch);
+        detail::delete_objects(orphaned_nodes);
+      } else if (orphaned_nodes != nullptr) {
+        // some other thread has advanced the epoch, so hand the nodes back;
+        // they get reclaimed the next time this slot comes around.
+        auto* last = orphaned_nodes;
+        while (last->next != nullptr) {
+          last = last->next;
+        }
+        orphans[idx].add({orphaned_nodes, last});
       }
     }
     return new_epoch;
   }
 
   void add_retired_node(detail::deletable_object* p) { retire_lists[local_epoch_idx].push(p); }
-
-  void reclaim_orphans(epoch_t epoch) {
-    auto idx = epoch % number_epochs;
-    auto* nodes = orphans[idx].adopt();
-    detail::delete_objects(nodes);
-  }
 
   unsigned critical_entries_since_update = 0;
   unsigned nested_critical_entries = 0;
